@@ -416,7 +416,7 @@ def step_body(name, T, want, dt=0.25, pops=1, transfers=0, junction_init=False, 
     return body
 
 
-def wiring_body(name, dur, dt_num, dt_den, T=4):
+def wiring_body(name, dur, dt_num, dt_den, T=4, y_factor=1.0):
     """Concrete structure check on the real built model (no symbolic numbers needed): the step size every variable carries is
     the settings' step size, and every timed compartment has ceil(D/dt) rows with D/dt evaluated in exact rational arithmetic"""
 
@@ -427,9 +427,14 @@ def wiring_body(name, dur, dt_num, dt_den, T=4):
         am, ap, au, apar, afp = mr.modules()
         dt = dt_num / dt_den
         P = gen.make_project(gen.CATALOGUE[name](dur), start=2000.0, end=2000.0 + dt * (T - 1), dt=dt)
+        if y_factor != 1.0:
+            for pop in P.parsets[0].pars["dur"].y_factor.keys():
+                P.parsets[0].pars["dur"].y_factor[pop] = y_factor
         m = am.Model(P.settings, P.framework, P.parsets[0])
-        exact = Fraction(dur).limit_denominator(10**6) / Fraction(dt_num, dt_den)
-        want_rows = max(1, math.ceil(exact))
+        # the duration is the parameter's value (databook value x calibration factor, C06)
+        for pop in m.pops:
+            env.claim("duration_parameter_value|%s" % pop.name, env.true(abs(float(pop.par_lookup["dur"].vals[0]) - dur * y_factor) <= 1e-12), key="duration_value")
+        durations = {"dur": Fraction(dur).limit_denominator(10**6) * Fraction(y_factor).limit_denominator(1000), "dur2": Fraction(3, 4)}
         env.claim("model_step_is_settings_step", env.true(m.dt == P.settings.sim_dt), key="model_dt")
         ok = True
         for pop in m.pops:
@@ -440,7 +445,21 @@ def wiring_body(name, dur, dt_num, dt_den, T=4):
         for pop in m.pops:
             for c in pop.comps:
                 if isinstance(c, am.TimedCompartment):
+                    want_rows = max(1, math.ceil(durations[c.parameter.name] / Fraction(dt_num, dt_den)))
                     env.claim("keyring_rows|%s" % c.name, env.true(c._vals.shape[0] == want_rows), key="keyring_rows", meta=dict(rows=int(c._vals.shape[0]), expected=want_rows))
+        # moves inside a duration group keep the elapsed time (TimedLink, also through junctions of the group); every other move,
+        # the timed outflow included, restarts it (plain Link)
+        F = P.framework
+        grp = {c: (F.comps.at[c, "duration group"] if isinstance(F.comps.at[c, "duration group"], str) and F.comps.at[c, "duration group"] else None) for c in F.comps.index}
+        for pop in m.pops:
+            for l in pop.links:
+                sg, dg = grp.get(l.source.name), grp.get(l.dest.name)
+                is_flush = isinstance(l.source, am.TimedCompartment) and l.source.flush_link is l
+                expect_timed = (sg is not None) and (sg == dg) and not is_flush
+                env.claim("link_keeps_elapsed_time_iff_same_group|%s>%s" % (l.source.name, l.dest.name), env.true(isinstance(l, am.TimedLink) == expect_timed), key="link_type", meta=dict(source_group=sg, dest_group=dg, timed=isinstance(l, am.TimedLink)))
+            for c in pop.comps:
+                if isinstance(c, am.JunctionCompartment):
+                    env.claim("junction_group_membership|%s" % c.name, env.true((c.duration_group or None) == grp.get(c.name)), key="junction_group")
         k = len(m.t) - 1
         env.claim("grid_is_start_plus_k_dt", env.true(all(abs(float(m.t[i]) - (2000.0 + i * dt)) <= 1e-9 for i in range(len(m.t)))), key="grid")
 
@@ -474,7 +493,7 @@ def specs(prop, tier):
     elif prop == "C04":
         lst = [("M4", 3, dict(junction_init=True)), ("M5", 3, dict(junction_init=True)), ("M5R", 3, dict(junction_init=True)), ("M6", 3, dict(junction_init=True)), ("M8", 4, {}), ("M12", 3, dict(junction_init=True))]
     elif prop == "C05":
-        lst = [("M7", 4, {}), ("M8", 4, {}), ("M7", 4, dict(pops=2, transfers=1)), ("M7", 4, dict(pops=2, transfers=1, durs=(0.5, 0.75))), ("M7", 4, dict(pops=2, transfers=1, durs=(0.75, 0.25)))]
+        lst = [("M7", 4, {}), ("M8", 4, {}), ("M8R", 4, {}), ("M8B", 4, {}), ("M7", 4, dict(pops=2, transfers=1)), ("M7", 4, dict(pops=2, transfers=1, durs=(0.5, 0.75))), ("M7", 4, dict(pops=2, transfers=1, durs=(0.75, 0.25)))]
         if not q:
             lst += [("M7", 6, dict(dt=0.125)), ("M8", 5, dict(dt=0.125))]
     else:
@@ -493,15 +512,15 @@ def specs(prop, tier):
     return out
 
 
-WIRING = [("M7", 0.5, 1, 12), ("M7", 0.25, 1, 12), ("M8", 0.5, 1, 52), ("M7", 0.3, 1, 10), ("M7", 2.0, 1, 4), ("M7", 0.02, 1, 12)]
+WIRING = [("M7", 0.5, 1, 12, 1.0), ("M7", 0.25, 1, 12, 1.0), ("M8", 0.5, 1, 52, 1.0), ("M7", 0.3, 1, 10, 1.0), ("M7", 2.0, 1, 4, 1.0), ("M7", 0.02, 1, 12, 1.0), ("M7", 0.5, 1, 4, 2.0), ("M8", 0.75, 1, 4, 0.5), ("M8R", 0.5, 1, 4, 1.0), ("M8B", 0.5, 1, 4, 1.0)]
 
 
 def groups(prop, tier):
     gs = []
     if prop in ("C05", "C03"):
-        for name, dur, a, b in WIRING:
-            nm = "wiring[%s;D=%g;dt=%d/%d]" % (name, dur, a, b)
-            body = wiring_body(name, dur, a, b)
+        for name, dur, a, b, yf in WIRING:
+            nm = "wiring[%s;D=%g;dt=%d/%d%s]" % (name, dur, a, b, ";y_factor=%g" % yf if yf != 1.0 else "")
+            body = wiring_body(name, dur, a, b, y_factor=yf)
 
             def gw(tier_, seed, _body=body, _nm=nm):
                 return run_body(_body, _nm, tier_, seed, functions=_funcs(), bounds=dict(kind="concrete structure check of the real Model.__init__/build"), stubs=["none (concrete execution of the real code; exact rational reference for ceil(D/dt))"], timeout_ms=10000, replay_witnesses=False)
@@ -520,9 +539,9 @@ def groups(prop, tier):
 
 
 def replay(prop, rec):
-    for name, dur, a, b in WIRING:
-        if rec["replay"]["group"] == "wiring[%s;D=%g;dt=%d/%d]" % (name, dur, a, b):
-            return replay_body(wiring_body(name, dur, a, b), rec["model"], rec["replay"]["claim"])
+    for name, dur, a, b, yf in WIRING:
+        if rec["replay"]["group"] == "wiring[%s;D=%g;dt=%d/%d%s]" % (name, dur, a, b, ";y_factor=%g" % yf if yf != 1.0 else ""):
+            return replay_body(wiring_body(name, dur, a, b, y_factor=yf), rec["model"], rec["replay"]["claim"])
     for nm, kw in specs(prop, "thorough") + specs(prop, "quick"):
         if nm == rec["replay"]["group"]:
             return replay_body(step_body(want={prop}, **kw), rec["model"], rec["replay"]["claim"])
